@@ -568,7 +568,13 @@ pub fn explore(ctx: &Ctx, sc: &Scenario, bound: usize, rank_base: u64) -> Explor
         if !ex.violations.is_empty() {
             // a violation under gates must reproduce from its recorded schedule
             let full: Vec<usize> = schedule_of(&ex, &prefix);
-            let again = execute(sc, &full);
+            let mut again = execute(sc, &full);
+            let mut tries = 0;
+            while again.machinery.is_some() && tries < 4 {
+                tries += 1;
+                st.retried += 1;
+                again = execute(sc, &full);
+            }
             let same = again.machinery.is_none() && again.results == ex.results && again.violations.iter().map(|v| &v.0).eq(ex.violations.iter().map(|v| &v.0));
             if !same {
                 eprintln!("MACHINERY: a violating schedule did not reproduce: {sc:?} {full:?}: {:?} vs {:?}", ex.violations, again.violations);
